@@ -27,7 +27,7 @@ type c03Hist struct {
 
 func init() {
 	register(&Prop{ID: "C03", Run: c03Run,
-		Rule: "histories of AddValue / AddValueAt / AddContainer / AddList / Remove / RemoveAt / ListBuilder.Set / Append / Clear / MustSet(in range) / Walk(CompactFn) over path-safe keys with index groups (nested up to 2), aimed at existing positions 2/3 of the time, from empty / generated start documents; every step is filtered by the domain predicate (no index step lands on an existing non-list, non-null node; remove paths end in a key). One history in four draws its keys from a second path-safe pool (vr_util.go: case twins, letters outside ASCII in 2/3/4 UTF-8 bytes, digit-only and sign-prefixed names, prefix-related siblings, names with inner / leading / trailing blanks and with characters that are syntax elsewhere: '/', '~', '#', '{', '=', ':'), every third history draws one index in six from 9..12 (two-digit index groups, lists padded to that length), one in four starts from a document rich in empty-but-present values (empty containers, empty lists, [[]], [{}], lists of nulls, the empty string, below containers at every depth) and compacts three times as often; after every Walk(CompactFn) the document is compared with the compaction of the previous state computed on the plain tree (exactly the empty keyed containers go, cascading upwards; lists, their items and every leaf stay). Non-trivial: at least 3 steps changed the document; distinct by case hash. heap-hist cases (harness/heap_builder.go): the start document is built by one of seven routes (FromMap, AddValue/ListNode with own / shared / mixed nil leaves, the AddContainer/AddList/Set/Append API, shared subtrees, containers with an add-and-remove history), its real object graph is encoded as an explicit heap by pointer identity, and a history of 3-14 (thorough: up to 30) builder calls is run that KEEPS the nodes returned by AddContainer / AddList / Child / Lookup as handles and later writes through them (half of the calls), mixed with root-level path writes aimed at the handles' positions (overwrite / remove / re-create), list Set / MustSet / Append / Clear, Walk(CompactFn), and now and then attaches a node the history already holds (sharing; never closing a cycle); after every call the document, the sharing map of its graph, the liveness of every handle, the returned node and the set of existing objects whose content changed are compared with the heap model (lean/YtkModel/HeapBuilder.lean). Such a case is non-trivial when at least one write went through a kept handle and at least 2 calls changed the document.",
+		Rule: "histories of AddValue / AddValueAt / AddContainer / AddList / Remove / RemoveAt / ListBuilder.Set / Append / Clear / MustSet(in range) / Walk(CompactFn) over path-safe keys with index groups (nested up to 2), aimed at existing positions 2/3 of the time, from empty / generated start documents; every step is filtered by the domain predicate (no index step lands on an existing non-list, non-null node; remove paths end in a key; a write makes no key step into an existing list, a RemoveAt may: the path is then absent and nothing may change). One RemoveAt in three aims at an existing path below a list item with one index group re-spelled as a digit-only member name (`a.l[1].b` -> `a.l.1.b`: another path on the plain tree, absent unless a container has a member of that name), and after every step Lookup is compared with the lookup on the plain tree at up to 3 paths through list items and up to 6 such re-spellings. One history in four draws its keys from a second path-safe pool (vr_util.go: case twins, letters outside ASCII in 2/3/4 UTF-8 bytes, digit-only and sign-prefixed names, prefix-related siblings, names with inner / leading / trailing blanks and with characters that are syntax elsewhere: '/', '~', '#', '{', '=', ':'), every third history draws one index in six from 9..12 (two-digit index groups, lists padded to that length), one in four starts from a document rich in empty-but-present values (empty containers, empty lists, [[]], [{}], lists of nulls, the empty string, below containers at every depth) and compacts three times as often; after every Walk(CompactFn) the document is compared with the compaction of the previous state computed on the plain tree (exactly the empty keyed containers go, cascading upwards; lists, their items and every leaf stay). Non-trivial: at least 3 steps changed the document; distinct by case hash. deep cases (harness/c03_deep.go; a dozen per quick run, direct predicates only): a chain of 40..2500 nested composites — on and around 255/256, 999..1003, 1024, 2048 and three random depths; containers, or every n-th level a list — built by nested AddContainer / AddList / Append calls or by ONE AddValueAt per name with a path of that many components, whose innermost composite holds one value as ONE node object under 2-3 names (and now and then once more further up) next to a value of its own; AsMap / AsSlice of the root and of inner levels (among them those from which the shared value is 999..1002 levels down), the walk through Children()/Items() and Lookup of the deep paths are compared with the plain tree built alongside, again after removing one name and adding a leaf at the bottom. heap-hist cases (harness/heap_builder.go): the start document is built by one of seven routes (FromMap, AddValue/ListNode with own / shared / mixed nil leaves, the AddContainer/AddList/Set/Append API, shared subtrees, containers with an add-and-remove history), its real object graph is encoded as an explicit heap by pointer identity, and a history of 3-14 (thorough: up to 30) builder calls is run that KEEPS the nodes returned by AddContainer / AddList / Child / Lookup as handles and later writes through them (half of the calls), mixed with root-level path writes aimed at the handles' positions (overwrite / remove / re-create), list Set / MustSet / Append / Clear, Walk(CompactFn), and now and then attaches a node the history already holds (sharing; never closing a cycle); after every call the document, the sharing map of its graph, the liveness of every handle, the returned node and the set of existing objects whose content changed are compared with the heap model (lean/YtkModel/HeapBuilder.lean). Such a case is non-trivial when at least one write went through a kept handle and at least 2 calls changed the document.",
 		Assumptions: []string{"remove operations range over paths whose last step is a key (DESIGN.md section 2)",
 			"a null pad at a list slot counts as absent for a following index step (it is replaced by a list)",
 			"heap-hist tie: a node object is identified by the address its pointer holds, a children map by the address of its header (Children() returns the map itself); item slices are observed through Items(); allocation order is not observable, so new objects are numbered by first visit (preorder, key order; the root's graph, then every detached handle's graph) on both sides; value nodes of heap-hist cases are built with a new leaf object per null, the start document by one of the seven routes of heap_share.go"}})
@@ -95,7 +95,14 @@ var trailingIdx = regexp.MustCompile(`(\[\d+])+$`)
 // c03InDomain: walking path p over state w, every index group must land on a list, on a null
 // leaf (pad) or on nothing, and no key step may land on an existing list.  Key steps may descend
 // through scalars (they are replaced by containers; the frame clause excludes that prefix).
-func c03InDomain(w W, p string) bool {
+func c03InDomain(w W, p string) bool { return c03InDomainOf(w, p, true) }
+
+// c03InDomainOf: write=false is the domain of RemoveAt (and of Lookup): these create nothing, so a key step into
+// an existing list simply finds nothing there on the plain tree — the path is absent, removing it is a no-op
+// (theorem removeAt_absent) — whatever the name is, a digit-only name such as "0" included: a name is a name, only an
+// index GROUP `[n]` addresses a list item.  (For a write the code replaces the list by a container, where the
+// plain-tree reading has no answer: DESIGN.md 10.4.)
+func c03InDomainOf(w W, p string, write bool) bool {
 	cur := w
 	exists := true
 	for _, comp := range strings.Split(p, ".") {
@@ -115,7 +122,7 @@ func c03InDomain(w W, p string) bool {
 		if exists {
 			c, ok := wireCont(cur)
 			if !ok {
-				if _, isList := cur.([]any); isList {
+				if _, isList := cur.([]any); isList && write {
 					return false // key step into an existing list (kind mismatch, like indexing a non-list)
 				}
 				exists = false
@@ -147,6 +154,63 @@ func c03InDomain(w W, p string) bool {
 	return true
 }
 
+var idxGroup = regexp.MustCompile(`\[(\d+)]`)
+
+// c03Respellings: the spellings of p in which ONE index group `[n]` is written as a member name of its own, `.n`
+// (`a.l[1].b` -> `a.l.1.b`).  On the plain tree these are other paths: a digit-only name is a name like any other,
+// it finds a member called "1" of a container and nothing at all in a list.
+func c03Respellings(p string) []string {
+	var out []string
+	for _, loc := range idxGroup.FindAllStringSubmatchIndex(p, -1) {
+		if loc[0] == 0 || p[loc[0]-1] == '.' {
+			continue
+		}
+		out = append(out, p[:loc[0]]+"."+p[loc[2]:loc[3]]+p[loc[1]:])
+	}
+	return out
+}
+
+// c03RespellPath: p, or an existing path below a list item, with one index group re-spelled as a digit-only name.
+func c03RespellPath(r *rand.Rand, p string, existing []string) string {
+	var below []string
+	for _, q := range existing {
+		if strings.Contains(q, "[") && !strings.HasSuffix(q, "]") {
+			below = append(below, q)
+		}
+	}
+	if len(below) > 0 && r.Intn(4) > 0 {
+		p = pick(r, below)
+	}
+	if rs := c03Respellings(p); len(rs) > 0 {
+		return pick(r, rs)
+	}
+	return p
+}
+
+// c03LookupProbes: existing paths through list items (at most 3) and their re-spellings with a digit-only name
+// (at most 6), spread over the document; deterministic.
+func c03LookupProbes(w W) []string {
+	var paths, lists, through, resp []string
+	wirePaths(w, "", &paths, &lists)
+	for _, q := range paths {
+		if strings.Contains(q, "[") {
+			through = append(through, q)
+			resp = append(resp, c03Respellings(q)...)
+		}
+	}
+	spread := func(xs []string, n int) []string {
+		if len(xs) <= n {
+			return xs
+		}
+		out := make([]string, 0, n)
+		for i := 0; i < n; i++ {
+			out = append(out, xs[i*len(xs)/n])
+		}
+		return out
+	}
+	return append(spread(through, 3), spread(resp, 6)...)
+}
+
 // c03CompactWeight: how many of 20 (+ weight - 2) draws are Walk(CompactFn) (2 by default).
 var c03CompactWeight = 2
 
@@ -170,6 +234,9 @@ func c03GenOps(r *rand.Rand, g *DocGen, start W, n int, probe func(W, bOp) W) []
 			op = bOp{Op: "remove", Path: pick(r, c03KeyPool)}
 		case k < 13:
 			p := c03Path(r, paths)
+			if r.Intn(3) == 0 {
+				p = c03RespellPath(r, p, paths)
+			}
 			if trailingIdx.MatchString(p) {
 				continue // remove paths end in a key
 			}
@@ -192,7 +259,7 @@ func c03GenOps(r *rand.Rand, g *DocGen, start W, n int, probe func(W, bOp) W) []
 		default:
 			op = bOp{Op: "compact"}
 		}
-		if op.Path != "" && !c03InDomain(state, op.Path) {
+		if op.Path != "" && !c03InDomainOf(state, op.Path, op.Op != "removeat") {
 			continue
 		}
 		if op.Op == "listmustset" {
@@ -293,6 +360,8 @@ func c03Run(c *Ctx) {
 	}
 	c03KeyPool, c03CompactWeight, c03BigIdx = c03Keys, 2, false
 	heapHistGen(c, c.N(250)) // heap_builder.go: histories that keep handles, compared at pointer level
+	g.Keys = c03Keys
+	c03DeepGen(c, g) // c03_deep.go: a few deep documents (direct predicates only)
 }
 
 // c03Apply performs one builder call; returns fluent-identity problems.
@@ -383,6 +452,9 @@ func c03Eval(c *Ctx, kind string, raw []byte) {
 	case "heap-hist":
 		heapHistEval(c, raw)
 		return
+	case "deep":
+		c03DeepEval(c, raw)
+		return
 	}
 	var h c03Hist
 	if err := json.Unmarshal(raw, &h); err != nil {
@@ -400,7 +472,7 @@ func c03Eval(c *Ctx, kind string, raw []byte) {
 	prev := nodeWire(cb)
 	for i, op := range h.Ops {
 		c.Dist("op:" + op.Op)
-		outside := op.Path != "" && !c03InDomain(prev, op.Path)
+		outside := op.Path != "" && !c03InDomainOf(prev, op.Path, op.Op != "removeat")
 		if strings.HasPrefix(op.Op, "list") {
 			l, ok := wireLookup(prev, op.Path).([]any)
 			outside = outside || !ok || (op.Op == "listmustset" && op.Idx >= len(l))
@@ -519,6 +591,13 @@ func c03Eval(c *Ctx, kind string, raw []byte) {
 				c.Direct("list-mustset", good, det)
 			}
 		}
+		// lookup reads the plain tree: an index group addresses a list item, a name — digit-only or not — a member
+		for _, q := range c03LookupProbes(cur) {
+			if !c.Direct("lookup==lookup on the plain tree (only an index group addresses a list item; a digit-only name is a name)",
+				canon(nodeWire(cb.Lookup(q))) == canon(wireLookup(cur, q)), map[string]any{"step": i, "path": q, "document": cur, "Lookup": nodeWire(cb.Lookup(q)), "plain": wireLookup(cur, q)}) {
+				break
+			}
+		}
 		states = append(states, cur)
 		prev = cur
 	}
@@ -533,6 +612,7 @@ func c03Eval(c *Ctx, kind string, raw []byte) {
 		probes = probes[:8]
 	}
 	probes = append(probes, "nope", "a.nope", "a[9]")
+	probes = append(probes, c03LookupProbes(prev)...)
 	lookups := make([]any, len(probes))
 	for i, p := range probes {
 		lookups[i] = nodeWire(cb.Lookup(p))
